@@ -33,6 +33,11 @@ def parsePairs (s : String) : Option (List (Str × Str)) :=
     | [g, f] => match unhexStr g, unhexStr f with
       | some g', some f' => some (g', f')
       | _, _ => none
+    -- a third part is the `name` attribute inside the glif file; the loader takes the glyph's name from the
+    -- contents.plist key, so the model ignores it
+    | [g, f, _] => match unhexStr g, unhexStr f with
+      | some g', some f' => some (g', f')
+      | _, _ => none
     | _ => none
 
 def parseNames (s : String) : Option (List Str) := (splitOnC s "+").mapM unhexStr
@@ -160,7 +165,8 @@ def specState (lower : Str → Str) (o : List ObsLayer) : List String :=
    | d :: rest => if d.path = glyphsDir && rest.all (fun l => l.path ≠ glyphsDir) then [] else ["one-default-first"]) ++
   (if (o.drop 1).all (fun l => l.name ≠ defaultName) then [] else ["reserved-name"]) ++
   (if o.all (fun l => nodupB (l.paths.map (fun e => lower e.2))) then [] else ["glyph-paths-distinct"]) ++
-  (if nodupB (o.map (fun l => lower l.path)) then [] else ["layer-paths-distinct"])
+  (if nodupB (o.map (fun l => lower l.path)) then [] else ["layer-paths-distinct"]) ++
+  (if o.all (fun l => nodupB l.glyphs) then [] else ["glyph-names-unique"])
 
 structure Acc where
   st : LayerSet
@@ -209,9 +215,21 @@ def run (inp obs : List String) : Verdict :=
     let stepObs := obs.takeWhile (· ≠ "|")
     let fin := (obs.dropWhile (· ≠ "|")).drop 1
     -- initial state
+    let aName : Str := "a".toList
+    let bName : Str := "b".toList
+    let filterOf : String → LFilter := fun k =>
+      if k = "loadf1" then { all := false, loadDefault := false, custom := some (fun _ _ => true) }
+      else if k = "loadf2" then { all := false, loadDefault := true, custom := some (fun n _ => n = aName) }
+      else if k = "loadf3" then { all := false, loadDefault := false, custom := none }
+      else if k = "loadf4" then { all := false, loadDefault := false, custom := some (fun n _ => n = aName || n = bName) }
+      else if k = "loadf5" then { all := false, loadDefault := true, custom := none }
+      else if k = "loadf6" then { all := false, loadDefault := false, custom := some (fun _ p => p = glyphsDir) }
+      else { all := true, loadDefault := false, custom := none }
     let init : Option LayerSet :=
       if initTok = "new" then some LayerSet.default
-      else (parseTree ((initTok.drop 5).toString)).bind (loadTree lower)
+      else match initTok.splitOn ":" with
+        | [k, spec] => (parseTree spec).bind (loadTreeF lower (filterOf k))
+        | _ => none
     match stepObs with
     | [] => { agree := false, model := "no-observation" }
     | first :: restObs =>
